@@ -82,6 +82,14 @@ package ord
 //@   ensures veriflaws.OrdLaws(New(e, less))
 //@   tag laws
 //
+// The Eq instance given to New decides ties, whatever `less` says (no hypotheses).
+//@ lemma newOrdEqvWins[T any](e fp.Eq[T], less func(a, b T) bool, x T, y T)
+//@   prop C10
+//@   ensures e.Eqv(x, y) ==> New(e, less).Eqv(x, y) && New(e, less).Compare(x, y) == 0 && !New(e, less).Less(x, y)
+//@   tag eqvWins
+//@   ensures !e.Eqv(x, y) && less(x, y) ==> New(e, less).Less(x, y)
+//@   tag lessDecides
+//
 // ---- as.Ord / fp.LessFunc --------------------------------------------------
 //
 //@ lemma asOrd[T any](less func(a, b T) bool, x T, y T, z T)
@@ -458,7 +466,7 @@ package ord
 //@   ensures veriflaws.OrdLaws(fp.LessFunc[T](less).ThenComparing(p))
 //@   tag laws
 //
-//@ lemma thenComparingOrdInstances[A any](o fp.Ord[int64], p fp.Ord[A], f func(A) int64, x A, y A)
+//@ lemma thenComparingOrdInstances[A any](p fp.Ord[A], f func(A) int64, x A, y A)
 //@   prop C10
 //@   requires veriflaws.OrdCore(p)
 //@   ensures GivenField(f).ThenComparing(p).Less(x, y) == (f(x) < f(y) || (f(x) == f(y) && p.Less(x, y)))
